@@ -986,6 +986,19 @@ func c15HostileDirs(c *core.Ctx, e *c15Env, fast []gen.KeyPair) {
 		{"symlink loop", func(ch *gen.Chain, n string) { os.Remove(n); os.Symlink(filepath.Base(n), n) }},
 		{"named pipe", func(ch *gen.Chain, n string) { os.Remove(n); syscall.Mkfifo(n, 0644) }},
 		{"symlink to /dev/zero", func(ch *gen.Chain, n string) { os.Remove(n); os.Symlink("/dev/zero", n) }},
+		// a "regular file" whose reported size (0) never matches what can be read from it
+		{"symlink to a procfs file", func(ch *gen.Chain, n string) { os.Remove(n); os.Symlink("/proc/version", n) }},
+		{"stray links to procfs and sysfs files next to the honest one", func(ch *gen.Chain, n string) {
+			os.Symlink("/proc/self/status", filepath.Join(ch.LinkDir, "write.0000aaaa.link"))
+			os.Symlink("/proc/cpuinfo", filepath.Join(ch.LinkDir, "write.0000aaab.link"))
+			os.Symlink("/sys/kernel/mm/transparent_hugepage/enabled", filepath.Join(ch.LinkDir, "write.0000aaac.link"))
+		}},
+		// the directory that the inspections record holds files whose names are not valid UTF-8
+		{"inspected directory with file names that are not valid UTF-8", func(ch *gen.Chain, n string) {
+			for _, name := range []string{"caf\xe9", "\xff\xfe.link", "a\xc3", "b\xe9.link", "\xe6\x97", "x\xf0\x9f\x98.txt"} {
+				os.WriteFile(filepath.Join(ch.FinalDir, name), []byte("x"), 0644)
+			}
+		}},
 		{"symlink to a directory", func(ch *gen.Chain, n string) { os.Remove(n); os.Symlink(ch.Root, n) }},
 		{"unreadable mode 000", func(ch *gen.Chain, n string) { os.Chmod(n, 0) }},
 		{"additional pipe with another key prefix", func(ch *gen.Chain, n string) {
